@@ -232,7 +232,7 @@ def targets(tier='quick'):
     for nsys in (1, 2):
         t = Target('mf-backend/compute_step' + ('' if nsys == 1 else '[systems=%d]' % nsys), 'backends.tempo_backend.MeanFieldTempoBackend.compute_step',
                    (lambda n: lambda ip, repo: c14.scen_mfb_step(ip, repo, n))(nsys), c14.post_mfb_step, c14.mfb_registry(), PROP,
-                   replay=lambda ob: {'func': 'field_free_reduces_to_tempo', 'inputs': {'obligation': ob['name']}})
+                   replay=lambda ob: {'func': 'mean_field_methods_agree', 'inputs': {'obligation': ob['name']}})
         # (exception atomicity of this step is C14's clause, with its open finding; here: which step/field the propagators get)
         t.keep = lambda name: name.startswith(('mfb/uses-current-step', 'mfb/step-post', 'unexpected-exception'))
         T.append(t)
